@@ -209,6 +209,17 @@ func (w *world) apply(target string, o wop) {
 		}
 		w.noteHeld(target, o.path, v)
 		w.c.GnmiUpdate(&pb.Notification{Timestamp: w.ts, Prefix: &pb.Path{Target: target}, Update: []*pb.Update{{Path: mkPath(o.path), Val: ival(v)}}})
+	case "atomic":
+		w.val++
+		pre := mkPath(o.path)
+		pre.Target = target
+		n := &pb.Notification{Timestamp: w.ts, Atomic: true, Prefix: pre, Update: []*pb.Update{{Path: mkPath("m"), Val: ival(w.val)}, {Path: mkPath("n"), Val: ival(w.val)}}}
+		k := target + "|" + o.path
+		if w.held[k] == nil {
+			w.held[k] = map[string]bool{}
+		}
+		w.held[k][atomicVal(n)] = true
+		w.c.GnmiUpdate(n)
 	case "del":
 		w.c.GnmiUpdate(&pb.Notification{Timestamp: w.ts, Prefix: &pb.Path{Target: target}, Delete: []*pb.Path{mkPath(o.path)}})
 	case "reset":
@@ -289,9 +300,32 @@ func splitKey(k string) []string {
 	return strings.Split(k, "/")
 }
 
+func isPrefixOf(p, q []string) bool {
+	if len(p) > len(q) {
+		return false
+	}
+	for i := range p {
+		if p[i] != q[i] {
+			return false
+		}
+	}
+	return true
+}
+
+func atomicVal(n *pb.Notification) string {
+	var parts []string
+	for _, u := range n.Update {
+		parts = append(parts, strings.Join(refIndex(u.Path), "/")+"="+fmt.Sprint(u.GetVal().GetIntVal()))
+	}
+	return "atomic{" + strings.Join(parts, ",") + "}"
+}
+
 func valOf(n *pb.Notification) string {
 	if len(n.Update) == 0 {
 		return ""
+	}
+	if n.Atomic {
+		return atomicVal(n)
 	}
 	if iv, ok := n.Update[0].GetVal().GetValue().(*pb.TypedValue_IntVal); ok {
 		return fmt.Sprint(iv.IntVal)
@@ -327,6 +361,16 @@ func replay(log []*pb.SubscribeResponse) (map[string]string, string) {
 		}
 		t := n.GetPrefix().GetTarget()
 		switch {
+		case n.Atomic && len(n.Update) > 0 && len(n.Delete) == 0:
+			// an atomic notification replaces the subtree at its prefix as one unit
+			idx := fullIndex(n.Prefix, nil)
+			for k := range rep {
+				kt, kp := k[:strings.Index(k, "|")], k[strings.Index(k, "|")+1:]
+				if kt == t && isPrefixOf(idx, splitKey(kp)) {
+					delete(rep, k)
+				}
+			}
+			rep[t+"|"+strings.Join(idx, "/")] = atomicVal(n)
 		case len(n.Update) == 1 && len(n.Delete) == 0:
 			rep[t+"|"+strings.Join(fullIndex(n.Prefix, n.Update[0].Path), "/")] = valOf(n)
 		case len(n.Delete) == 1 && len(n.Update) == 0:
